@@ -39,6 +39,9 @@ func checkC17(c *Ctx) {
 	checkReferenceRootOlder(c)
 	checkFailedCommitDiscards(c)
 	checkFailedWriteKeepsRoot(c)
+	c.rule("ORDER-index-label-last", "a failed write during an index build cannot leave a label that declares the partial index complete", 1)
+	checkIndexLabelLast(c, "ORDER-index-label-last")
+	checkFailedWriteRetainsBatch(c)
 	var lossy []string
 	for fn, why := range ea.lossy {
 		lossy = append(lossy, l.fname(fn)+": "+why)
@@ -248,5 +251,81 @@ func checkFailedWriteKeepsRoot(c *Ctx) {
 	}
 	if n < 2 {
 		c.anchorMissing(R, "fewer than 2 root replacements from fallible descents (set, Remove)")
+	}
+}
+
+// checkFailedWriteRetainsBatch: SaveVersion assigns node keys before the
+// commit; when the commit's write fails, a repeated SaveVersion finds the
+// nodes keyed and relies on their queued writes still being in the batch
+// (see DOM-reference-root-older).  The batch wrapper therefore must not close
+// or replace its batch on the error edge of the physical write.  (The hazard
+// of that design — the retained operations survive a Rollback — is the known
+// finding PASS-failed-commit-discards; dropping the batch here without undoing
+// the node keys trades it for a commit that reports success over nothing.)
+func checkFailedWriteRetainsBatch(c *Ctx) {
+	l := c.L
+	const R = "PASS-failed-write-retains-batch"
+	c.rule(R, "the batch wrapper keeps the queued operations when the physical write fails (a repeated commit relies on them)", 2)
+	fBatch := l.Field("", "BatchWithFlusher", "batch")
+	if fBatch == nil {
+		c.anchorMissing(R, "BatchWithFlusher.batch")
+		return
+	}
+	drops := l.newFnReach(func(fn *ssa.Function) bool {
+		w := false
+		allInstrs(fn, func(in ssa.Instruction) {
+			if isStoreToField(in, fBatch) {
+				w = true
+			}
+		})
+		return w
+	})
+	for _, name := range []string{"*BatchWithFlusher.Write", "*BatchWithFlusher.WriteSync"} {
+		fn := l.Func("", name)
+		if fn == nil {
+			c.anchorMissing(R, name)
+			continue
+		}
+		for _, in := range callsIn(fn, isBatchWrite) {
+			call, ok := in.(*ssa.Call)
+			if !ok {
+				continue
+			}
+			e, has := errorValueOfCall(call)
+			if !has || e == nil {
+				continue
+			}
+			okKeep, found := true, false
+			for _, b := range fn.Blocks {
+				iff := ifOf(b)
+				if iff == nil {
+					continue
+				}
+				v, nn, isNil := nilCond(iff.Cond)
+				if !isNil || stripTrivial(v) != e {
+					continue
+				}
+				found = true
+				searchFrom([]point{blockStart(b.Succs[nn])}, func(x ssa.Instruction) bool {
+					if isStoreToField(x, fBatch) {
+						okKeep = false
+						return true
+					}
+					if cc := callCommon(x); cc != nil {
+						if cc.IsInvoke() && cc.Method.Name() == "Close" && isLoadOfField(fBatch)(cc.Value) {
+							okKeep = false
+							return true
+						}
+						if g := staticCallee(cc); g != nil && g != fn && drops.Fn(g) {
+							okKeep = false
+							return true
+						}
+					}
+					return false
+				})
+			}
+			c.decide(R, l.fname(fn)+" keeps the batch when the write fails", l.ipos(in), found && okKeep, "error edge returns without closing / replacing the batch",
+				"on the error edge of the physical write the batch is closed or replaced: the operations of the failed commit are gone while the nodes stay keyed in memory, so a repeated SaveVersion writes (almost) nothing and reports the version as saved")
+		}
 	}
 }
